@@ -21,7 +21,7 @@ def instances(tier):
 
 CHECK = dict(
     id='C19', pkgs=['tonconnect'], init_pkgs=['std:io', 'std:encoding/base64', 'std:encoding/hex', 'std:strconv', 'std:strings', 'boc', 'tlb', 'wallet', 'tonconnect'], instances=instances,
-    opts={'budget_s': 1500, 'hash_injective': True},
+    opts={'budget_s': 2400, 'hash_injective': True, 'vc_timeout': 400},
     level_text='createMessage produces exactly sha256(0xffff | "ton-connect" | sha256("ton-proof-item-v2/" | BE32(wc) | address | LE32(len domain) | domain | LE64(ts) | payload)) for all workchains, addresses, timestamps and domains/payloads of the stated lengths; with an ideal signature the proof verifies under the wallet key and is rejected under another key and when any byte of timestamp or workchain, the address, the domain or the payload differs; ParseStateInit of a known wallet state-init (V3R2, V4R2; arbitrary key and sub-wallet id) serialised to base64 BOC returns exactly the key, returns an error (never nil,nil) when code or data is missing; compareStateInitWithAddress accepts exactly the hash of the state-init; the get-method path (Server.getWalletPubKey through abi.GetPublicKey with a stub executor answering with an arbitrary 256-bit integer) hands exactly the 32 big-endian bytes of the key to verification, for keys with 0..8 leading zero bytes, and refuses implausibly short keys; client side: a proof made by CreateSignedProof (workchain of <= 5 digits, domain/payload symbolic) is taken apart by the server-side convertTonProofMessage into exactly the same account, time stamp, domain and payload, and verifies under the wallet key; the time-limited payload (GeneratePayload / CheckPayload with an ideal HMAC, symbolic secret, deterministic clock): accepted while younger than its life time, refused once life time + 1 s has passed, refused when the text has another length.',
     level_note='SHA-256 and Ed25519 ideal (injective). Not covered: CheckProof end to end as one call (its parts are: message, signature, key from get-method, key from state-init), forged payloads, JSON transport.',
     bounds={'domain/payload bytes': 'see instances', 'versions': 'V3R2, V4R2 (quick), + V3R1, V4R1 (thorough)'},
